@@ -191,6 +191,7 @@ func TestVerif_C12(t *testing.T) {
 	}
 	decisions += vfC12Connection(rec)
 	decisions += vfC12AcrossLookups(rec)
+	decisions += vfC12Symlinks(rec)
 	rec.Eval(decisions)
 	rec.Sample(map[string]any{"modes": nModes, "relations": []string{"owner", "owner+group", "group", "aux-group", "other", "root", "root-is-owner", "root-is-owner-other-gid", "group-of-root-owned", "aux-group-of-root-owned", "other-of-root-owned"}, "masks": 64, "decisions": decisions})
 }
@@ -335,6 +336,68 @@ func vfC12AcrossLookups(rec *evid.Rec) int {
 			}
 			srv.Close()
 		}
+	}
+	return n
+}
+
+// vfC12Symlinks: ACCESS on the handle of a symbolic link is about the LINK: whatever it points to
+// (a wide-open directory, a file, nothing), LOOKUP and DELETE are directory bits and are never
+// granted on it, the granted bits are a subset of the request, and MODIFY/EXTEND never on a
+// read-only export.
+func vfC12Symlinks(rec *evid.Rec) int {
+	n := 0
+	for _, ro := range []bool{false, true} {
+		fs := refs.New()
+		fs.PlantDir("/open", 0777, 0, 0)
+		fs.PlantDir("/closed", 0000, 0, 0)
+		fs.PlantFile("/file", []byte("x"), 0666, 0, 0)
+		fs.PlantSymlink("/to-open-dir", "open")
+		fs.PlantSymlink("/to-closed-dir", "closed")
+		fs.PlantSymlink("/to-file", "file")
+		fs.PlantSymlink("/dangling", "nowhere")
+		srv, err := vfNewSrv(fs, ExportOptions{AttrCacheTimeout: 1, ReadOnly: ro})
+		if err != nil {
+			rec.Infra(err.Error())
+			return n
+		}
+		c0 := srv.client()
+		root, _ := c0.mnt("/")
+		for _, ln := range []string{"to-open-dir", "to-closed-dir", "to-file", "dangling"} {
+			l, _ := c0.lookup(root, ln)
+			if l == nil || l.Status != 0 {
+				continue
+			}
+			h := vfFH(l.FH)
+			for _, id := range [][2]uint32{{0, 0}, {1000, 1000}, {65534, 65534}} {
+				c := srv.client()
+				c.Cred = xdrw.AuthSys(1, "h", id[0], id[1], nil)
+				for mask := uint32(0); mask < 64; mask++ {
+					res, err := c.access(h, mask)
+					if err != nil || res == nil {
+						continue
+					}
+					n++
+					desc := fmt.Sprintf("ACCESS on the symbolic link /%s (uid %d, mask %#x, read-only=%v): status %d granted %#x", ln, id[0], mask, ro, res.Status, res.Access)
+					if res.Status != 0 {
+						rec.Distinct(fmt.Sprintf("symlink|%s|ro=%v|status=%d", ln, ro, res.Status))
+						continue
+					}
+					if res.Access&^mask != 0 {
+						rec.Violate("C12/granted-not-subset-of-request/object=symlink", desc, desc)
+					}
+					if res.Access&(0x02|0x10) != 0 {
+						rec.Violate("C12/directory-bits-granted-on-a-symbolic-link/target="+ln, desc, desc)
+					}
+					if ro && res.Access&(0x04|0x08|0x10) != 0 {
+						rec.Violate("C12/write-bits-granted-on-read-only-export/object=symlink", desc, desc)
+					}
+					if mask == 63 {
+						rec.Distinct(fmt.Sprintf("symlink|%s|ro=%v|uid=%d|granted=%#x", ln, ro, id[0], res.Access))
+					}
+				}
+			}
+		}
+		srv.Close()
 	}
 	return n
 }
